@@ -287,6 +287,71 @@ Proof.
   rewrite rev_nth in H2 by lia. replace (length v - S (length v - 1 - j))%nat with j in H2 by lia. exact H2.
 Qed.
 
+(** ** time reversal and extension: laws of the longest run, hence of lroo *)
+Lemma is_run_rev_gen v i n : is_run v i n -> is_run (rev v) (length v - i - n) n.
+Proof.
+  intros [H1 H2]. split; [rewrite rev_length; lia|]. intros j Hj.
+  rewrite rev_nth by lia. apply H2. lia.
+Qed.
+
+Lemma longest_run_rev l L : longest_run l L -> longest_run (rev l) L.
+Proof.
+  intros [U (i & n & R & E)]. split.
+  - intros i' n' R'. apply is_run_rev_gen in R'. rewrite rev_involutive in R'. exact (U _ _ R').
+  - exists (length l - i - n)%nat, n. split; [now apply is_run_rev_gen|exact E].
+Qed.
+
+(** reading the series backwards gives the same lroo *)
+Theorem lroo_rev l : lroo_count (rev l) = lroo_count l.
+Proof.
+  rewrite (lroo_count_spec (rev l) _ (longest_run_rev _ _ (scan_is_longest l))).
+  now rewrite (lroo_count_spec l _ (scan_is_longest l)).
+Qed.
+
+Lemma is_run_app_l a b i n : is_run a i n -> is_run (a ++ b) i n.
+Proof.
+  intros [H1 H2]. split; [rewrite app_length; lia|]. intros j Hj. rewrite app_nth1 by lia. now apply H2.
+Qed.
+
+Lemma is_run_app_r a b i n : is_run b i n -> is_run (a ++ b) (length a + i) n.
+Proof.
+  intros [H1 H2]. split; [rewrite app_length; lia|]. intros j Hj. rewrite app_nth2 by lia. apply H2. lia.
+Qed.
+
+(** more data never shortens the longest run: the longest run of a concatenation is at least
+    that of each part (lroo before thresholding is monotone under extension on either side) *)
+Theorem longest_run_app_mono a b La Lb L :
+  longest_run a La -> longest_run b Lb -> longest_run (a ++ b) L -> La <= L /\ Lb <= L.
+Proof.
+  intros [_ (i & n & R & E)] [_ (i' & n' & R' & E')] [U _]. split.
+  - rewrite <- E. apply (U i n). now apply is_run_app_l.
+  - rewrite <- E'. apply (U (length a + i')%nat n'). now apply is_run_app_r.
+Qed.
+
+(** a non-one value separates: runs never cross it, so the longest run of [a ++ x :: b] (x <> 1)
+    is the larger of the two sides *)
+Theorem longest_run_split a b x La Lb :
+  x <> 1 -> longest_run a La -> longest_run b Lb -> longest_run (a ++ x :: b) (Z.max La Lb).
+Proof.
+  intros Hx [Ua (ia & na & Ra & Ea)] [Ub (ib & nb & Rb & Eb)]. split.
+  - intros i n [H1 H2]. rewrite app_length in H1. cbn [length] in H1.
+    destruct (Nat.le_gt_cases (i + n) (length a)) as [Hl|Hl].
+    + assert (is_run a i n) as R.
+      { split; [exact Hl|]. intros j Hj. rewrite <- (H2 j Hj). rewrite app_nth1 by lia. reflexivity. }
+      pose proof (Ua _ _ R). lia.
+    + destruct (Nat.le_gt_cases i (length a)) as [Hi|Hi].
+      * exfalso. apply Hx. rewrite <- (H2 (length a) ltac:(lia)). rewrite app_nth2 by lia.
+        replace (length a - length a)%nat with 0%nat by lia. reflexivity.
+      * assert (is_run b (i - length a - 1) n) as R.
+        { split; [lia|]. intros j Hj. rewrite <- (H2 (length a + 1 + j)%nat ltac:(lia)). rewrite app_nth2 by lia.
+          replace (length a + 1 + j - length a)%nat with (S j) by lia. reflexivity. }
+        pose proof (Ub _ _ R). lia.
+  - destruct (Z.max_spec La Lb) as [[_ ->]|[_ ->]].
+    + exists (length a + S ib)%nat, nb. split; [|exact Eb].
+      apply (is_run_app_r a (x :: b)). now apply is_run_tail.
+    + exists ia, na. split; [|exact Ea]. now apply is_run_app_l.
+Qed.
+
 Lemma ss_snoc (l : list (Z * Z)) x :
   StronglySorted tdesc l -> Forall (fun p => fst x <= fst p) l -> StronglySorted tdesc (l ++ [x]).
 Proof.
